@@ -76,7 +76,8 @@ class ONIOMProblemDecomposition(ProblemDecomposition):
         for fragment in self.fragments:
             # Case when no atom are selected -> whole system.
             if fragment.selected_atoms is None:
-                fragment.geometry = self.geometry
+                # A copy: capping atoms appended below must not end up in the shared system geometry.
+                fragment.geometry = list(self.geometry)
             # Case where an int is detected -> first n atoms.
             elif type(fragment.selected_atoms) is int:
                 fragment.geometry = self.geometry[:fragment.selected_atoms]
